@@ -44,9 +44,12 @@ PRIMITIVE_SHORT_NAMES = {
 }
 PRIMITIVE_TYPE_WORDS = re.compile(r"\b(float|PrimFloat|Prim2SF|SF2Prim|SF64\w*|spec_float|Uint63|PrimInt63|int|to_Z|wB)\b")
 FORBIDDEN_RE = re.compile(
-    r"\b(Admitted|admit|Axiom|Axioms|Parameter|Parameters|Conjecture|Conjectures|Admit Obligations|"
-    r"Unset Guard Checking|Unset Positivity Checking|Unset Universe Checking|bypass_check|"
-    r"Hypothesis|Hypotheses|Variable|Variables|Context)\b")
+    r"\b(Admitted|admit|Axiom|Axioms|Parameter|Parameters|Conjecture|Conjectures|Admit\s+Obligations|"
+    r"Unset\s+Guard\s+Checking|Unset\s+Positivity\s+Checking|Unset\s+Universe\s+Checking|bypass_check|"
+    r"Declare\s+Instance|Declare\s+ML\s+Module|Load|Hypothesis|Hypotheses|Variable|Variables|Context)\b")
+SECTION_LOCAL = ("Variable", "Variables", "Hypothesis", "Hypotheses", "Context")
+SENTENCE_LEADING = SECTION_LOCAL + ("Load",)     # only meaningful as the first word of a vernacular sentence
+LEADING_MODIFIERS_RE = re.compile(r"^(?:\s*(?:#\[[^\]]*\]|Local|Global|Polymorphic|Monomorphic|Cumulative|NonCumulative|Program|Private|Export|Time)\s*)*")
 
 TRUSTED_BASE = [
     "Coq 8.16.1 kernel incl. vm_compute (no native_compute)",
@@ -151,6 +154,10 @@ def build_harness(ctx, profile="release", hooks=False):
     if not os.path.exists(lock_dst) or "name = \"vharness\"" not in open(lock_dst).read():
         with open(lock_dst, "w") as f:
             f.write(src)
+    m = re.search(r'spdcalc\s*=\s*\{[^}]*path\s*=\s*"([^"]+)"', open(os.path.join(HARNESS, "Cargo.toml")).read())
+    if not m or os.path.realpath(m.group(1)) != os.path.realpath(REPO):
+        raise CheckError(f"harness/Cargo.toml builds against {m.group(1) if m else '?'} but the tree under check (VERIF_REPO) is {REPO}: "
+                         "model and observations would come from different trees")
     env = dict(os.environ, CARGO_NET_OFFLINE="true")
     if hooks:
         env["RUSTFLAGS"] = (env.get("RUSTFLAGS", "") + f" --cfg {GUARD_CFG}").strip()
@@ -180,8 +187,8 @@ def run_harness(ctx, binp, args, timeout=600, stdin=None, env=None):
         r = subprocess.run([binp] + [str(a) for a in args], capture_output=True, text=True, timeout=timeout, input=stdin, env=e)
     except subprocess.TimeoutExpired as ex:
         ctx.log(f"   harness {' '.join(str(a) for a in args)}: no result within {timeout} s")
-        return [{"kind": "harness_timeout", "timeout_s": timeout, "args": [str(a) for a in args],
-                 "stdout_tail": ((ex.stdout or b"").decode(errors="replace") if isinstance(ex.stdout, bytes) else (ex.stdout or ""))[-1000:]}]
+        # no plugin can decide anything from a run that did not finish: the check could not run (never a silent skip)
+        raise CheckError(f"the harness run `{' '.join(str(a) for a in args)}` gave no result within {timeout} s") from ex
     out = []
     for line in r.stdout.splitlines():
         line = line.strip()
@@ -307,48 +314,120 @@ def deps_of(target_v):
     return sorted(seen)
 
 
+def coq_blank_comments_and_strings(s):
+    """replace the contents of comments (nested; string literals inside them are lexed as Coq does) and of string literals by
+    blanks, keeping every newline, so that offsets and line numbers are preserved"""
+    out = []
+    i, n, depth, in_str = 0, len(s), 0, False
+    while i < n:
+        c = s[i]
+        if in_str:
+            if c == '"':
+                in_str = False
+                out.append('"' if depth == 0 else " ")
+            else:
+                out.append("\n" if c == "\n" else " ")
+            i += 1
+        elif c == '"':
+            in_str = True
+            out.append('"' if depth == 0 else " ")
+            i += 1
+        elif s.startswith("(*", i):
+            depth += 1
+            out.append("  ")
+            i += 2
+        elif depth and s.startswith("*)", i):
+            depth -= 1
+            out.append("  ")
+            i += 2
+        elif depth:
+            out.append("\n" if c == "\n" else " ")
+            i += 1
+        else:
+            out.append(c)
+            i += 1
+    return "".join(out)
+
+
+def static_scan_text(s):
+    """forbidden vernacular in one Coq source text -> [(line, word)].  Declarations of section variables are allowed inside a
+    Section only (a plain Module or Module Type is not a Section)."""
+    s2 = coq_blank_comments_and_strings(s)
+    bad = []
+    stack = []            # enclosing Section / Module kinds
+    pos = 0
+    for sent in re.split(r"(?<=\.)(?=\s|$)", s2):
+        start = pos
+        pos += len(sent)
+        body = sent[LEADING_MODIFIERS_RE.match(sent).end():]
+        lead = body.lstrip()
+        ln = s2.count("\n", 0, start + (len(sent) - len(sent.lstrip()))) + 1
+        m = re.match(r"(Section|Module\s+Type|Module)\s+(?:Import\s+|Export\s+)?[\w']+", lead)
+        if m and ":=" not in lead:
+            stack.append("Section" if m.group(1) == "Section" else "Module")
+        elif re.match(r"End\s+[\w']+\s*\.", lead) and stack:
+            stack.pop()
+        for mm in FORBIDDEN_RE.finditer(sent):
+            w = " ".join(mm.group(1).split())
+            wl = s2.count("\n", 0, start + mm.start()) + 1
+            if w in SENTENCE_LEADING:
+                if not lead.startswith(mm.group(1)):
+                    continue          # not the head of a sentence: an identifier or tactic argument
+                if w in SECTION_LOCAL and "Section" in stack:
+                    continue
+            bad.append((wl, w))
+    return bad
+
+
 def static_scan(ctx, files):
     bad = []
     for f in files:
-        p = os.path.join(COQ, f)
         try:
-            s = open(p).read()
+            s = open(os.path.join(COQ, f)).read()
         except OSError:
             continue
-        s2 = re.sub(r"\(\*.*?\*\)", " ", s, flags=re.S)
-        s2 = re.sub(r'"[^"]*"', '""', s2)
-        # Section-local Variable/Hypothesis are allowed: strip section bodies' declarations
-        in_section = 0
-        for ln, line in enumerate(s2.split("\n"), 1):
-            if re.match(r"\s*(Section|Module Type|Module)\s+\w+\s*\.", line):
-                in_section += 1
-            if re.match(r"\s*End\s", line) and in_section:
-                in_section -= 1
-            for m in FORBIDDEN_RE.finditer(line):
-                w = m.group(1)
-                if w in ("Variable", "Variables", "Hypothesis", "Hypotheses", "Context") and in_section:
-                    continue
-                if w in ("Variable", "Variables", "Hypothesis", "Hypotheses", "Context", "Parameter", "Parameters") and not re.match(r"\s*(Local\s+|Global\s+)?" + w, line):
-                    continue
-                bad.append((f, ln, w))
+        bad.extend((f, ln, w) for ln, w in static_scan_text(s))
     return bad
+
+
+def all_project_sources():
+    """every .v file of the development (generated per-run case files excluded): all of them are scanned on every run, also the
+    case-tactic, Findings and pins files that no Props file imports"""
+    out = []
+    for root, _dirs, names in os.walk(COQ):
+        rel = os.path.relpath(root, COQ)
+        if rel.split(os.sep)[0] == "Cases":
+            continue
+        out.extend(os.path.normpath(os.path.join(rel, n)) for n in names if n.endswith(".v"))
+    return sorted(out)
 
 
 def audit_assumptions(ctx, props_v):
     """re-run coqc on the Props file to read its Print Assumptions output"""
     adir = os.path.join(COQ, "Cases", "audit")
     os.makedirs(adir, exist_ok=True)
-    r = subprocess.run(["coqc", "-Q", ".", "SpdVerif", "-w", "none", "-noglob",
-                        props_v, "-o", os.path.join(adir, os.path.basename(props_v) + "o")],
-                       cwd=COQ, capture_output=True, text=True, timeout=600)
-    out = r.stdout
+    out, rc, err = "", 1, ""
+    for _attempt in (1, 2):     # one retry: the audit recompiles a file that the build just accepted, so a failure here is environmental
+        try:
+            r = subprocess.run(["coqc", "-Q", ".", "SpdVerif", "-w", "none", "-noglob",
+                                props_v, "-o", os.path.join(adir, os.path.basename(props_v) + "o")],
+                               cwd=COQ, capture_output=True, text=True, timeout=900)
+            out, rc, err = r.stdout, r.returncode, (r.stderr or "") + ("" if r.returncode == 0 else "\n[stdout] " + r.stdout[-600:])
+        except subprocess.TimeoutExpired:
+            out, rc, err = "", 124, "Print Assumptions audit: no result within 900 s"
+        if rc == 0:
+            break
+        ctx.log(f"   audit of {props_v}: coqc exit {rc} (attempt {_attempt}): {err[-300:]}")
     axioms = set()
     closed = out.count("Closed under the global context")
     blocks = out.split("Axioms:")
     texts = {}
+    other = []          # anything else Coq reports in an assumptions block (unguarded fixpoints, assumed positivity, type-in-type …)
     for b in blocks[1:]:
         cur = None
         for line in b.split("\n"):
+            if line.startswith("Closed under the global context"):
+                break
             m = re.match(r"^([A-Za-z_][\w.']*)\s*(:|$)", line)
             if m and not line.startswith(" "):
                 cur = m.group(1)
@@ -356,20 +435,30 @@ def audit_assumptions(ctx, props_v):
                 texts[cur] = texts.get(cur, "") + line
             elif cur is not None and line.startswith(" "):
                 texts[cur] += " " + line.strip()
+            elif line.strip():
+                cur = None
+                other.append(" ".join(line.split())[:200])
             else:
                 cur = None
+    other += [" ".join(l.split())[:200] for l in out.split("\n")
+              if re.search(r"is assumed to be|relies on an unsafe|assumed to be positive|type-in-type|is positive\.", l) and " ".join(l.split())[:200] not in other]
     # unqualified primitive float / int names: normalise to their qualified family when the type confirms it
     for a in list(axioms):
         if "." not in a and a in PRIMITIVE_SHORT_NAMES and PRIMITIVE_TYPE_WORDS.search(texts.get(a, "")):
             axioms.discard(a)
             axioms.add("PrimFloat." + a if "float" in texts.get(a, "").lower() or "SF" in texts.get(a, "") else "PrimInt63." + a)
-    ntheorems = len(re.findall(r"^\s*Theorem\s", open(os.path.join(COQ, props_v)).read(), re.M))
-    nprints = len(re.findall(r"^\s*Print Assumptions\s", open(os.path.join(COQ, props_v)).read(), re.M))
-    unexpected = sorted(a for a in axioms if a not in ALLOWED_AXIOMS and not a.startswith(ALLOWED_AXIOM_PREFIXES))
+    src = coq_blank_comments_and_strings(open(os.path.join(COQ, props_v)).read())
+    ths = re.findall(r"^\s*Theorem\s+([A-Za-z0-9_']+)", src, re.M)
+    printed = re.findall(r"^\s*Print\s+Assumptions\s+([A-Za-z0-9_'.]+?)\s*\.", src, re.M)
+    ntheorems, nprints = len(ths), len(set(printed) & set(ths))
+    unprinted = [t for t in ths if t not in printed]
+    unexpected = sorted(a for a in axioms if a not in ALLOWED_AXIOMS and not a.startswith(ALLOWED_AXIOM_PREFIXES)) + other
+    if closed + len(blocks) - 1 < len(printed) and rc == 0:
+        unexpected.append(f"{len(printed)} Print Assumptions commands but only {closed + len(blocks) - 1} reports in coqc's output")
     ctx.assumptions = sorted(a for a in axioms if not a.startswith(ALLOWED_AXIOM_PREFIXES)) + \
         (["FloatAxioms.*/PrimFloat.*/PrimInt63.*/Uint63.* (Coq primitive numbers, via interval)"] if any(a.startswith(ALLOWED_AXIOM_PREFIXES) for a in axioms) else [])
-    return {"rc": r.returncode, "axioms": sorted(axioms), "unexpected": unexpected, "closed": closed,
-            "theorems": ntheorems, "prints": nprints, "stderr": r.stderr[-1500:]}
+    return {"rc": rc, "axioms": sorted(axioms), "unexpected": unexpected, "closed": closed,
+            "theorems": ntheorems, "prints": nprints, "unprinted": unprinted, "stderr": err[-1500:]}
 
 
 def theorems_in(props_v):
@@ -382,8 +471,11 @@ def prove(ctx, pid, extra_targets=()):
     props_v = f"Props/{pid}.v"
     extra_targets = list(extra_targets)
     # statement pins (tools/mkpins.py): built with the property so that an edited theorem statement is noticed
-    if os.path.exists(os.path.join(COQ, "Props", f"{pid}_pins.v")) and f"Props/{pid}_pins.vo" not in extra_targets:
+    if f"Props/{pid}_pins.vo" not in extra_targets:
         extra_targets.append(f"Props/{pid}_pins.vo")
+    pins_missing = not os.path.exists(os.path.join(COQ, "Props", f"{pid}_pins.v"))
+    if pins_missing:
+        extra_targets.remove(f"Props/{pid}_pins.vo")
     ok, fails, log = coq_build(ctx, [f"Props/{pid}.vo"] + list(extra_targets))
     deps = deps_of(props_v)
     # every generated file the property imports must come from a generator that succeeded on this tree, whether or not the
@@ -419,7 +511,7 @@ def prove(ctx, pid, extra_targets=()):
                 good += count_lemmas(os.path.join(COQ, d))
         ctx.cov["discharged"] += good
         ctx.proof_failures.extend(fails)
-    bad = static_scan(ctx, deps)
+    bad = static_scan(ctx, sorted(set(deps) | set(all_project_sources())))
     for f, ln, w in bad:
         ctx.proof_failures.append((f, f"line {ln}", f"forbidden vernacular `{w}`"))
         ok = False
@@ -435,8 +527,8 @@ def prove(ctx, pid, extra_targets=()):
         if a["unexpected"]:
             ctx.proof_failures.append((props_v, "Print Assumptions", "unexpected axioms: " + ", ".join(a["unexpected"])))
             ok = False
-        if a["prints"] < a["theorems"]:
-            ctx.proof_failures.append((props_v, "Print Assumptions", f"{a['theorems']} theorems but {a['prints']} Print Assumptions"))
+        if a["unprinted"]:
+            ctx.proof_failures.append((props_v, "Print Assumptions", f"{a['theorems']} theorems but no Print Assumptions for: " + ", ".join(a["unprinted"][:8])))
             ok = False
         # statements pinned?
         pins = os.path.join(COQ, "Props", f"{pid}_pins.v")
@@ -445,7 +537,12 @@ def prove(ctx, pid, extra_targets=()):
             missing = [th for th in theorems_in(props_v) if not re.search(r"Check\s+\(?@?" + re.escape(th) + r"\b", ps)]
             ctx.cov["statements_pinned"] = len(theorems_in(props_v)) - len(missing)
             if missing:
-                ctx.note(f"{len(missing)} theorem(s) of {props_v} have no pin in Props/{pid}_pins.v (run tools/mkpins.py {pid}): " + ", ".join(missing[:6]))
+                ctx.proof_failures.append((f"Props/{pid}_pins.v", "pins", f"{len(missing)} theorem(s) of {props_v} have no statement pin "
+                                           f"(after reviewing the new statements run tools/mkpins.py {pid}): " + ", ".join(missing[:6])))
+                ok = False
+    if pins_missing:
+        ctx.proof_failures.append((f"Props/{pid}_pins.v", "pins", "the statement pins of this property are missing (tools/mkpins.py)"))
+        ok = False
     return ok
 
 
@@ -521,8 +618,9 @@ def run_interval_cases(ctx, name, imports, goals, shards=None, timeout=900, setu
         ctx.cov["unchecked_cases"] = ctx.cov.get("unchecked_cases", 0) + len(still)
     if still and not getattr(ctx, "_retrying", False):
         ctx.cases_unloadable = True     # S4 'disagreement' lines for unchecked goals are suppressed; the no-verdict obligation reports them
-    for cid, _, _ in goals:             # every goal gets an entry (plugins index the result by case id)
-        res.setdefault(str(cid), False)
+    if not getattr(ctx, "_retrying", False):
+        for cid, _, _ in goals:         # every goal gets an entry (plugins index the result by case id); NOT during the retry, whose
+            res.setdefault(str(cid), False)     # caller must still see which goals have no verdict
     nok = sum(1 for v in res.values() if v)
     ctx.log(f"S4 {name}: {nok}/{len(goals)} correspondence goals closed by coqc in {time.time()-t:.1f}s ({len(files)} shards)")
     ctx.cov["obligations"] += len(goals)
@@ -590,7 +688,7 @@ def match_finding(v, findings, prop):
         if f.get("property") != prop or f.get("status") != "known":
             continue
         m = f.get("match", {})
-        if all(str(v["sig"].get(k)) == str(val) for k, val in m.items()):
+        if m and all(k in v["sig"] and str(v["sig"][k]) == str(val) for k, val in m.items()):
             return f
     return None
 
@@ -620,14 +718,16 @@ def finish(ctx, level="proof", assumptions=None):
             printed_known.add(f["id"])
             print(f"KNOWN-FINDING: property={ctx.prop} {f['what']}", flush=True)
     # a known finding whose witness no longer reproduces is only noted
+    complete = not ctx.proof_failures and not getattr(ctx, "replay", None) and \
+        not any(v["sig"].get("kind") in ("check_error", "internal") for v in ctx.violations)
     for f in findings:
         if f.get("property") == ctx.prop and f.get("status") == "known" and f["id"] not in printed_known \
-                and f.get("expect_every_run", True):
+                and f.get("expect_every_run", True) and complete:
             ctx.note(f"finding {f['id']} no longer reproduces on this tree")
     seen_replays = set()
     nviol = 0
     for v, _ in real:
-        h = hashlib.sha256(json.dumps(v["sig"], sort_keys=True).encode()).hexdigest()[:12]
+        h = hashlib.sha256(json.dumps(v["sig"], sort_keys=True, default=str).encode()).hexdigest()[:12]
         if h in seen_replays:
             continue
         seen_replays.add(h)
@@ -656,7 +756,9 @@ def finish(ctx, level="proof", assumptions=None):
     }
     if not cov["samples"]:
         cov["samples"] = ["(no case generated)"]
-    with open(os.path.join(VERIF, "evidence", f"{ctx.prop}.json"), "w") as f:
+    # a replay run looks at one recorded input: it must not replace the evidence of the last full run
+    evname = f"{ctx.prop}.json" if not getattr(ctx, "replay", None) else os.path.join("replays", f"{ctx.prop}-last-replay-evidence.json")
+    with open(os.path.join(VERIF, "evidence", evname), "w") as f:
         json.dump(ev, f, indent=1, default=str)
     ctx.log(f"{ctx.prop}: obligations {cov['obligations']} discharged {cov['discharged']}; evaluations {cov['evaluations']} "
             f"(distinct non-trivial {cov['distinct_nontrivial']}); violations {len(seen_replays)}; known {len(printed_known)}; "
